@@ -30,7 +30,7 @@
 (*   Tx       a = [t |-> transaction, x |-> execution input]               *)
 (*   NewBlock a = [bf |-> base fee of the new block, fc |-> fee collector]  *)
 (***************************************************************************)
-EXTENDS Num, Sequences, FiniteSets, TLC, FiniteSetsExt, Folds
+EXTENDS Num, Sequences, FiniteSets, TLC, FiniteSetsExt, SequencesExt, Folds
 
 CONSTANTS
   ACCTS,      \* externally owned accounts that send / receive ("a1", "a2", "a3")
@@ -54,6 +54,9 @@ Holders == Parties \cup {"fc", "sink"}
 (*   bg        gas consumed on the block gas meter                          *)
 (*   bf        base fee of the current block                                *)
 (*   stor[c]   slot 0 of fixture contract c                                 *)
+(*   wd[a]     x/assets withdrawable amount of a as staker of the deposit   *)
+(*             asset; dl[a] its delegation to the fixture operator          *)
+(*             (x/delegation undelegatable share, 1:1 with tokens here)     *)
 (*   dep       x/assets staking total of the deposit asset (restaking state *)
 (*             reachable through the assets precompile)                     *)
 (***************************************************************************)
@@ -65,7 +68,7 @@ Move(st, from, to, amt) ==
 
 (***************************************************************************)
 (* transaction  t = [s, to, ty, gas, price, tip, value, nonce, intr,        *)
-(*                   mode, word, amt]                                       *)
+(*                   mode, word, op, amt]                                   *)
 (*   ty    "leg" | "al" | "dyn";  price = gasPrice (leg, al) / gasFeeCap    *)
 (*   tip   gasTipCap (dyn; = price otherwise)                               *)
 (*   intr  intrinsic gas of the payload (core.IntrinsicGas), an input       *)
@@ -93,14 +96,14 @@ Ante(st, t) ==
   IN
   \* baseapp.validateBasicTxMsgs (before the ante handler) -> DynamicFeeTx.Validate: tip cap above fee cap
   IF t.ty = "dyn" /\ NGt(t.tip, t.price) THEN R(st, 1012) ELSE
-  \* intended admission rule (property C19): sender can pay value + fee.  The code checks the two
-  \* separately (DEV_SplitBalanceCheck): EthAccountVerificationDecorator is skipped in DeliverTx.
-  IF "DEV_SplitBalanceCheck" \notin DEVS /\ NLt(st.bal[t.s], NAdd(t.value, fee)) THEN R(st, 5) ELSE
   \* EthMinGasPriceDecorator: fee < minGasPrice * gasLimit  (fee = effective fee; = gasPrice*gas for leg/al)
   IF ~NIsZero(MINGP) /\ NLt(NMul(fee, PREC), NMul(MINGP, t.gas)) THEN R(st, 13) ELSE
   \* CanTransferDecorator: fee cap below base fee; value above the (whole) balance
   IF NLt(t.price, bf) THEN R(st, 13) ELSE
-  IF NIsPos(t.value) /\ NLt(st.bal[t.s], t.value) THEN R(st, 5) ELSE
+  \* DEV_SplitBalanceCheck (F-C19-1): the code compares the balance with the value alone, before the fee is
+  \* deducted (EthAccountVerificationDecorator, which checks the total cost, is skipped in DeliverTx).
+  \* Without the deviation (fix-F-C19-1.patch): value + fee for the whole gas limit at the effective price.
+  IF NIsPos(t.value) /\ NLt(st.bal[t.s], IF "DEV_SplitBalanceCheck" \in DEVS THEN t.value ELSE NAdd(t.value, fee)) THEN R(st, 5) ELSE
   \* EthGasConsumeDecorator: VerifyFee, DeductTxCostsFromUserBalance, block gas limit
   \* ClaimStakingRewardsIfNecessary: an empty fee has no staking denom (ErrInsufficientFee); a fee above
   \* the balance reaches dogfood's IterateDelegations, which panics ("unimplemented on this keeper");
@@ -139,7 +142,8 @@ AdmitCheck(st, t) ==
 (*   "c"   SSTORE(0, word); mode "rev" reverts, "oog" loops                 *)
 (*   "pre" assets precompile depositLST called by the sender itself:        *)
 (*         deposit when the sender is the gateway, else returns false       *)
-(*   "gw"  gateway contract: forwards the deposit to the precompile;        *)
+(*   "gw"  gateway contract: forwards t.op (deposit / delegate / undelegate *)
+(*         of t.amt for staker t.s) to the assets / delegation precompile;  *)
 (*         reverts when that call fails or (mode "rev"/"irev") afterwards,  *)
 (*         returning the precompile call's success flag as revert data      *)
 (*   "w"   wrapper: calls gw, ignores the result, stores 2 (gw frame ok) /  *)
@@ -149,7 +153,16 @@ AdmitCheck(st, t) ==
 (***************************************************************************)
 Effects(st, t, x) ==
   LET s1 == Move(st, t.s, Recipient(t), t.value)
-      deposit(s) == [s EXCEPT !.dep = NAdd(@, t.amt)]
+      \* what the restaking precompile called by the gateway does for staker t.s (t.op):
+      \*   "dep"  assets.depositLST                      staking total and withdrawable + amt
+      \*   "dlg"  delegation.delegate to the operator    needs amt <= withdrawable, else returns false
+      \*   "und"  delegation.undelegate                  needs amt <= delegated, else returns false
+      \* (keeper errors become a `false` return value, never a revert)
+      deposit(s) ==
+        IF t.op = "dep" THEN [s EXCEPT !.dep = NAdd(@, t.amt), !.wd[t.s] = NAdd(@, t.amt)]
+        ELSE IF t.op = "dlg" THEN
+          (IF NLe(t.amt, s.wd[t.s]) THEN [s EXCEPT !.wd[t.s] = NSub(@, t.amt), !.dl[t.s] = NAdd(@, t.amt)] ELSE s)
+        ELSE (IF NLe(t.amt, s.dl[t.s]) THEN [s EXCEPT !.dl[t.s] = NSub(@, t.amt)] ELSE s)
   IN
   IF t.to = "c" THEN [s1 EXCEPT !.stor["c"] = t.word]
   ELSE IF t.to = "pre" THEN (IF GATEWAY = t.s THEN deposit(s1) ELSE s1)
@@ -199,12 +212,86 @@ Deliver(st, t, x) ==
   IF over(gasUsed) THEN Res([s1 EXCEPT !.bg = NAdd(@, gasUsed)], 11, gasUsed, x.vmfail)
   ELSE Res([s3 EXCEPT !.bg = NAdd(@, gasUsed)], 0, gasUsed, x.vmfail)
 
+(***************************************************************************)
+(* ONE Cosmos tx carrying several MsgEthereumTx: ts, xs sequences.          *)
+(* Every ante decorator loops over all messages before the next decorator   *)
+(* runs; only EthGasConsumeDecorator (fees, one after the other) and        *)
+(* EthIncrementSenderSequenceDecorator (sequences) write.  runMsgs executes *)
+(* the messages in order on ONE message cache: an error of any message      *)
+(* (intrinsic gas) or the block gas meter overflowing drops the effects and *)
+(* refunds of ALL of them, while every fee for the whole gas limit and      *)
+(* every nonce increment stay.                                              *)
+(***************************************************************************)
+SumGas(ts) == FoldLeft(LAMBDA acc, t : acc + t.gas, 0, ts)
+FirstNonZero(cs) == IF \E i \in DOMAIN cs : cs[i] # 0 THEN cs[CHOOSE i \in DOMAIN cs : cs[i] # 0 /\ \A j \in DOMAIN cs : cs[j] # 0 => i <= j] ELSE 0
+
+RECURSIVE ConsumeFees(_, _, _)
+ConsumeFees(st, ts, i) ==
+  IF i > Len(ts) THEN R(st, 0) ELSE
+  LET t == ts[i]  fee == Fee(t, st.bf) IN
+  IF NIsZero(fee) THEN R(st, 13) ELSE
+  IF NLt(st.bal[t.s], fee) THEN R(st, 111222) ELSE ConsumeFees(Move(st, t.s, "fc", fee), ts, i + 1)
+
+RECURSIVE BumpNonces(_, _, _)
+BumpNonces(st, ts, i) ==
+  IF i > Len(ts) THEN R(st, 0) ELSE
+  IF ts[i].nonce # st.nonce[ts[i].s] THEN R(st, 3) ELSE BumpNonces([st EXCEPT !.nonce[ts[i].s] = @ + 1], ts, i + 1)
+
+AnteBatch(st, ts) ==
+  LET bf == st.bf
+      basic == FirstNonZero([i \in DOMAIN ts |-> IF ts[i].ty = "dyn" /\ NGt(ts[i].tip, ts[i].price) THEN 1012 ELSE 0])
+      mingp == FirstNonZero([i \in DOMAIN ts |-> IF ~NIsZero(MINGP) /\ NLt(NMul(Fee(ts[i], bf), PREC), NMul(MINGP, ts[i].gas)) THEN 13 ELSE 0])
+      cantr == FirstNonZero([i \in DOMAIN ts |->
+                 IF NLt(ts[i].price, bf) THEN 13
+                 ELSE IF NIsPos(ts[i].value) /\ NLt(st.bal[ts[i].s], IF "DEV_SplitBalanceCheck" \in DEVS THEN ts[i].value ELSE NAdd(ts[i].value, Fee(ts[i], bf))) THEN 5
+                 ELSE 0])
+  IN
+  IF basic # 0 THEN R(st, basic) ELSE
+  IF mingp # 0 THEN R(st, mingp) ELSE
+  IF cantr # 0 THEN R(st, cantr) ELSE
+  LET f == ConsumeFees(st, ts, 1) IN
+  IF f.code # 0 THEN R(st, f.code) ELSE
+  IF BLOCKGAS # 0 /\ SumGas(ts) > BLOCKGAS THEN R(st, 11) ELSE
+  LET n == BumpNonces(f.st, ts, 1) IN
+  IF n.code # 0 THEN R(st, n.code) ELSE R(n.st, 0)
+
+BRes(st, code, gu, gus, vmfails) == [st |-> st, code |-> code, gu |-> gu, gus |-> gus, vmfails |-> vmfails]
+
+DeliverBatch(st, ts, xs) ==
+  IF BLOCKGAS # 0 /\ NGe(st.bg, BLOCKGAS) THEN BRes(st, 11, 0, <<>>, <<>>) ELSE
+  LET a == AnteBatch(st, ts) IN
+  IF a.code # 0 THEN BRes([st EXCEPT !.bg = NAdd(@, xs[1].gasRej)], a.code, xs[1].gasRej, <<>>, <<>>) ELSE
+  LET s1 == a.st
+      over(g) == BLOCKGAS # 0 /\ NGt(NAdd(st.bg, g), BLOCKGAS)
+      step(acc, i) ==
+        IF acc.err THEN acc ELSE
+        LET t == ts[i]  x == xs[i] IN
+        IF t.gas < t.intr THEN [acc EXCEPT !.err = TRUE] ELSE
+        LET gasUsed == NMax(MinUsed(t), x.gasEvm)
+            s2 == IF x.vmfail THEN acc.st ELSE Effects(acc.st, t, x)
+            s3 == Move(s2, "fc", t.s, NMul(NSub(t.gas, gasUsed), EffPrice(t, st.bf)))
+            \* DEV_BatchCreateResetsNonce (F-C19-3): the creation path of ApplyMessageWithConfig "takes over the nonce
+            \* management" - SetNonce(sender, msg.Nonce()) before evm.Create, SetNonce(sender, msg.Nonce()+1) after - and
+            \* the committed statedb overwrites the sequence the ante handler had already advanced for ALL messages of
+            \* the Cosmos tx: later messages of the same sender lose their increment.  (No effect on a one-message tx.)
+            s4 == IF t.to = "new" /\ ~x.vmfail /\ "DEV_BatchCreateResetsNonce" \in DEVS
+                  THEN [s3 EXCEPT !.nonce[t.s] = t.nonce + 1] ELSE s3
+        IN [st |-> s4, gus |-> Append(acc.gus, gasUsed), vmfails |-> Append(acc.vmfails, x.vmfail), total |-> NAdd(acc.total, gasUsed), err |-> FALSE]
+      e == FoldLeft(step, [st |-> s1, gus |-> <<>>, vmfails |-> <<>>, total |-> NC(0), err |-> FALSE], [i \in DOMAIN ts |-> i])
+      sum == SumGas(ts)
+  IN
+  IF e.err THEN BRes([s1 EXCEPT !.bg = NAdd(@, sum)], IF over(sum) THEN 11 ELSE 1, sum, <<>>, <<>>)
+  ELSE IF over(e.total) THEN BRes([s1 EXCEPT !.bg = NAdd(@, e.total)], 11, e.total, e.gus, e.vmfails)
+  ELSE BRes([e.st EXCEPT !.bg = NAdd(@, e.total)], 0, e.total, e.gus, e.vmfails)
+
 \* block boundary: the block gas meter restarts; the new base fee (x/feemarket BeginBlock) and the
 \* fee collector balance (drained / refilled by distribution and mint) are inputs
-NewBlock(st, a) == [st EXCEPT !.bg = NC(0), !.bf = a.bf, !.fc = a.fc]
+\* (a.wd: undelegations that mature in EndBlock return to the withdrawable amount)
+NewBlock(st, a) == [st EXCEPT !.bg = NC(0), !.bf = a.bf, !.fc = a.fc, !.wd = a.wd]
 
 Apply(st, ev, a) ==
   IF ev = "Tx" THEN Deliver(st, a.t, a.x)
+  ELSE IF ev = "Batch" THEN DeliverBatch(st, a.ts, a.xs)
   ELSE Res(NewBlock(st, a), 0, 0, FALSE)
 
 (***************************************************************************)
@@ -223,9 +310,11 @@ Admissible(st, t) ==
   /\ NGe(NMul(EffPrice(t, st.bf), PREC), MINGP)
   /\ (BLOCKGAS = 0 \/ t.gas <= BLOCKGAS)
 
+SameRestaking(pre, post) == post.dep = pre.dep /\ post.wd = pre.wd /\ post.dl = pre.dl
+
 Changed(pre, post) ==
   \/ post.nonce # pre.nonce \/ post.bal # pre.bal \/ post.fc # pre.fc \/ post.sink # pre.sink
-  \/ post.stor # pre.stor \/ post.dep # pre.dep
+  \/ post.stor # pre.stor \/ post.dep # pre.dep \/ post.wd # pre.wd \/ post.dl # pre.dl
 
 \* a transaction is included when it was executed (code 0) or left any trace at all
 Included(pre, post, o) == o.code = 0 \/ Changed(pre, post)
@@ -251,8 +340,41 @@ C19Tags(pre, post, t, o) ==
   T(inc => NEq(Delta(pre, post, "fc"), ExpDelta(pre, t, o, "fc")), "C19_CollectorReceives") \cup
   T(inc => \A h \in Holders \ {t.s, "fc"} : NEq(Delta(pre, post, h), ExpDelta(pre, t, o, h)), "C19_RecipientGets") \cup
   T(inc => NIsZero(SumH(LAMBDA h : Delta(pre, post, h))), "C19_ZeroSum") \cup
-  T((inc /\ Failed(o)) => post.stor = pre.stor /\ post.dep = pre.dep, "C19_FailedChangedState") \cup
+  T((inc /\ Failed(o)) => post.stor = pre.stor /\ SameRestaking(pre, post), "C19_FailedChangedState") \cup
   T(~Admissible(pre, t) => (o.code # 0 /\ ~Changed(pre, post)), "C19_InadmissibleIncluded") \cup
   \* a call frame that the wrapper fixture observed as reverted must leave no restaking state behind
-  T((o.code = 0 /\ ~o.vmfail /\ t.to = "w" /\ NEq(post.stor["w"], 1)) => post.dep = pre.dep, "C19_RevertedFrameKeptState")
+  T((o.code = 0 /\ ~o.vmfail /\ t.to = "w" /\ NEq(post.stor["w"], 1)) => SameRestaking(pre, post), "C19_RevertedFrameKeptState")
+
+(***************************************************************************)
+(* C19 on one observed (or modelled) Cosmos tx with several Ethereum txs.   *)
+(*   o = [code, gu, gus, vmfails]; the per-message result of message i is   *)
+(*   [code, gus[i], vmfails[i]] (code # 0: every message failed, each is    *)
+(*   charged for its whole gas limit).  Balances are only observable around *)
+(*   the whole Cosmos tx, so the money clauses compare, per holder, the     *)
+(*   observed change with the SUM of what the clauses demand per message.   *)
+(***************************************************************************)
+ObsOf(o, i) == [code |-> o.code, gu |-> IF o.code = 0 THEN o.gus[i] ELSE 0, vmfail |-> IF o.code = 0 THEN o.vmfails[i] ELSE FALSE]
+
+\* admission of every message against the state its predecessors' ante effects leave (fee deducted, sequence bumped)
+RECURSIVE AdmissibleSeq(_, _, _)
+AdmissibleSeq(st, ts, i) ==
+  IF i > Len(ts) THEN TRUE ELSE
+  /\ Admissible(st, ts[i])
+  /\ AdmissibleSeq([Move(st, ts[i].s, "fc", Fee(ts[i], st.bf)) EXCEPT !.nonce[ts[i].s] = @ + 1], ts, i + 1)
+
+C19BatchTags(pre, post, ts, o) ==
+  LET inc == o.code = 0 \/ Changed(pre, post)
+      I   == DOMAIN ts
+      senders == {ts[i].s : i \in I}
+      exp(h) == FoldLeft(LAMBDA acc, i : NAdd(acc, ExpDelta(pre, ts[i], ObsOf(o, i), h)), N0, [i \in I |-> i])
+      okd(h) == NEq(Delta(pre, post, h), exp(h))
+  IN
+  T(inc => post.nonce = [a \in DOMAIN pre.nonce |-> pre.nonce[a] + Cardinality({i \in I : ts[i].s = a})], "C19_Nonce") \cup
+  T(o.code = 0 => \A i \in I : NLe(MinUsed(ts[i]), o.gus[i]) /\ NLe(o.gus[i], ts[i].gas), "C19_GasBounds") \cup
+  T(inc => \A h \in senders : okd(h), "C19_SenderPays") \cup
+  T(inc => okd("fc"), "C19_CollectorReceives") \cup
+  T(inc => \A h \in Holders \ (senders \cup {"fc"}) : okd(h), "C19_RecipientGets") \cup
+  T(inc => NIsZero(SumH(LAMBDA h : Delta(pre, post, h))), "C19_ZeroSum") \cup
+  T((inc /\ \A i \in I : Failed(ObsOf(o, i))) => post.stor = pre.stor /\ SameRestaking(pre, post), "C19_FailedChangedState") \cup
+  T(~(AdmissibleSeq(pre, ts, 1) /\ (BLOCKGAS = 0 \/ SumGas(ts) <= BLOCKGAS)) => (o.code # 0 /\ ~Changed(pre, post)), "C19_InadmissibleIncluded")
 =============================================================================
